@@ -439,8 +439,12 @@ def constraint_definitions(model, rep, rule, only=None):
         fi = method('_plateRotationConstraint')
         il, cs = compares(fi)
         loops = [n for n in walk_own(fi.node) if isinstance(n, ast.For) and isinstance(n.target, ast.Name)]
-        iv = loops[0].target.id if loops else '?'
-        ok = bool(loops) and norm_text(loops[0].iter) == 'range(3)' and any(
-            (cmp_parts(e, left='self._current_plate_transform_local.gTM()[%s,%s]' % (iv, iv)) or ('', '', ''))[1] in ('<', '<=') for n, e in cs)
+        # the three axes may also be visited by a comprehension (`[i for i in range(3) if M[i, i] <= limit]`)
+        gens = [g for n in walk_own(fi.node) if isinstance(n, (ast.ListComp, ast.GeneratorExp, ast.SetComp)) for g in n.generators if isinstance(g.target, ast.Name)]
+        axes3 = [(l_.target.id, l_.iter) for l_ in loops] + [(g_.target.id, g_.iter) for g_ in gens]
+        DIAG = ('self._current_plate_transform_local.gTM()[%s,%s]', 'self._current_plate_transform_local.gTM()[%s][%s]', 'self._current_plate_transform_local.TM[%s,%s]')
+        ok = any(norm_text(it_) == 'range(3)' and any(
+            (cmp_parts(e, left=lambda t, iv_=iv_: t in tuple(d_ % (iv_, iv_) for d_ in DIAG)) or ('', '', ''))[1] in ('<', '<=') for n, e in cs) for iv_, it_ in axes3)
+        loops = loops or [type('L', (), {'iter': axes3[0][1]})()] if axes3 else loops
         rep.ob(rule, fi, 'diagonal of the relative rotation vs plate_rotation_limit (three axes)', ok,
                'plate-tilt constraint compares %s over %s' % ([norm_text(e)[:70] for n, e in cs], norm_text(loops[0].iter) if loops else '?'))
